@@ -101,6 +101,9 @@ func RunAction(kind string, r interface{}, act string) {
 	case "errStd":
 		// a library error value with a predefined code but its own message and data: returned verbatim
 		c.Error(&res.Error{Code: res.CodeNotFound, Message: "User 42 not found", Data: map[string]int{"id": 42}})
+	case "errStdData":
+		// the predefined code and message, with data of its own
+		c.Error(&res.Error{Code: res.CodeNotFound, Message: "Not found", Data: map[string]int{"id": 42}})
 	case "panicWrap":
 		panic(fmt.Errorf("lookup of user failed: %w", res.ErrNotFound))
 	case "notfound":
